@@ -37,6 +37,14 @@ fn hash_default(v: &Version) -> u64 {
     h.finish()
 }
 
+/// hash through the slice / collection path (`Hash::hash_slice` is a provided method an impl may override)
+fn hash_in_slice(v: &Version) -> u64 {
+    let mut h = DefaultHasher::new();
+    std::slice::from_ref(v).hash(&mut h);
+    (v.clone(), 7u8).hash(&mut h);
+    h.finish()
+}
+
 fn id_kind(s: &str) -> &'static str {
     if all_digits(s) {
         "num"
@@ -124,7 +132,7 @@ fn judge_pair(ctx: &mut Ctx, a: &MV, b: &MV, ca: &Version, cb: &Version, how: &s
     }
     if eq {
         ctx.eval(1);
-        if hash_default(ca) != hash_default(cb) || hash_stream(ca) != hash_stream(cb) {
+        if hash_default(ca) != hash_default(cb) || hash_stream(ca) != hash_stream(cb) || hash_in_slice(ca) != hash_in_slice(cb) {
             ctx.violation(&format!("hash≠eq/{}", cls), w, "equal versions hash differently".into());
             return;
         }
